@@ -240,7 +240,15 @@ fn parse_integer(string: &str, require_sign: bool) -> Result<Option<Integer>, er
         }
 
         integer *= prefix.radix as IntegerValue;
-        integer += digit as IntegerValue;
+        // The last digit can still overflow (eg. "2147483648")
+        integer = match integer.checked_add(digit as IntegerValue) {
+            Some(integer) => integer,
+            None => {
+                return Err(error::Value::IntegerTooLarge {
+                    max: i16::MAX as u16,
+                })
+            }
+        };
     }
 
     assert!(
